@@ -91,6 +91,15 @@ def I2(c, st):
                patterns=[st.f('_task', j)]))
 
 
+def IN(c, st):
+    """a member without a task is not running (established by _reset_tasks, kept by R2b): what lets _create_task
+    hand the job to the window (`job-not-running`)"""
+    Jp = Jset(c)
+    j = q()
+    return ForAll([j], Implies(And(Select(Jp, j), st.f('_task', j) == NONE), Not(st.f('_running', j))),
+                  patterns=[st.f('_task', j)])
+
+
 def I3(c, st):
     Jp = Jset(c)
     j, r = q(2)
@@ -217,6 +226,7 @@ def _l0(c):
         ('created-are-exactly-the-list', ForAll([t], Select(CR, t) == Select(PL, t),
                                                 patterns=[Select(CR, t), Select(PL, t)])),
         ('I2-one-task-per-job', I2(c, st)),
+        ('IN-idle-members-not-running', IN(c, st)),
         ('only-entry-jobs-have-a-task', ForAll([j, r], Implies(And(Select(Jp, j), st.f('_task', j) != NONE),
                                                                Not(E(c.pre, j, r))),
                                                patterns=[z3.MultiPattern(st.f('_task', j), E(c.pre, j, r))])),
@@ -229,7 +239,7 @@ def _l0(c):
 
 _L0 = ['I0-graph-unchanged', 'I0-backlinks', 'I0-own-fields', 'I0-window', 'clock-still', 'counts',
        'one-task-per-visited-entry-job', 'tasks-distinct', 'created-are-exactly-the-list', 'I2-one-task-per-job',
-       'only-entry-jobs-have-a-task', 'no-cancellation', 'fresh-tasks-pending', 'entry-list-stable']
+       'IN-idle-members-not-running', 'only-entry-jobs-have-a-task', 'no-cancellation', 'fresh-tasks-pending', 'entry-list-stable']
 def _l0_list_hints(h, e):
     """the list `pending` grew by exactly the task just created (instance of the list-set axiom at the
     new last index, which the simplifier would otherwise rewrite away)"""
@@ -274,6 +284,7 @@ def _main(c):
         ('I1-no-cancellation-so-far', no_cancel(c, st)),
         ('I2-one-task-per-job', I2(c, st)),
         ('I3-requirements-finished-before-a-task-exists', I3(c, st)),
+        ('IN-idle-members-not-running', IN(c, st)),
         ('I4-eager', I4(c, st, P)),
         ('I5-counts', counts(c, st, P)),
     ]
@@ -281,8 +292,8 @@ def _main(c):
 
 _MAIN = ['I0-graph-unchanged', 'I0-backlinks', 'I0-own-fields', 'I0-window', 'I1-wait-set-within-created',
          'I1-delivered-finished-and-not-critical-failures', 'I1-no-cancellation-so-far',
-         'I2-one-task-per-job', 'I3-requirements-finished-before-a-task-exists', 'I4-eager', 'I5-counts',
-         'I1-wait-set-not-empty']
+         'I2-one-task-per-job', 'I3-requirements-finished-before-a-task-exists', 'IN-idle-members-not-running',
+         'I4-eager', 'I5-counts', 'I1-wait-set-not-empty']
 
 
 def _main_hints(h, e):
@@ -492,6 +503,7 @@ def _l4(c):
         ('clock-still', vt(st) == vt(lp)),
         ('I2-one-task-per-job', I2(c, st)),
         ('I3-requirements-finished-before-a-task-exists', I3(c, st)),
+        ('IN-idle-members-not-running', IN(c, st)),
         ('I1-no-cancellation-so-far', no_cancel(c, st)),
         ('wait-set-grows-by-the-new-tasks', And(
             L.subset(P0, P), L.subset(P, CR), all_tasks(st, P),
@@ -514,7 +526,8 @@ def _l4(c):
 
 
 _L4 = ['I0-graph-unchanged', 'I0-backlinks', 'I0-own-fields', 'I0-window', 'clock-still', 'I2-one-task-per-job',
-       'I3-requirements-finished-before-a-task-exists', 'I1-no-cancellation-so-far', 'wait-set-grows-by-the-new-tasks',
+       'I3-requirements-finished-before-a-task-exists', 'IN-idle-members-not-running', 'I1-no-cancellation-so-far',
+       'wait-set-grows-by-the-new-tasks',
        'old-tasks-untouched', 'visited-candidates-settled', 'unvisited-members-untouched', 'candidates-are-members',
        'other-sets-untouched']
 def _l4_i2_hints(h, e):
